@@ -70,6 +70,17 @@ def handle (args : List String) : String :=
         "ok:" ++ ",".intercalate entries
       | .error (.handler d) => "err:handler:" ++ showDid d
       | .error _ => "err:immediate"
+  | ["jwkmulti", n] =>
+    -- n (at most five) textually different DIDs of one key, one DID of another key, a literal duplicate of the first: the
+    -- did:jwk handler (method 7, always succeeds) is called per distinct DID; one entry per distinct DID
+    match n.toNat? with
+    | none => "bad-request"
+    | some n =>
+      let t : Table := Table.attach [] 7 ⟨7, fun k => .doc k⟩
+      let ds : List Did := ((List.range (min n 5)).map fun i => (⟨7, i⟩ : Did)) ++ [⟨7, 99⟩, ⟨7, 0⟩]
+      (match resolveMultiple t (firstOcc (ds.map fun d => (d, 0)) []).unzip.1 with
+       | .ok r => s!"ok:{r.length}"
+       | .error _ => "err:handler")
   | ["jwk", v] =>
     if v == "priv" then "err:handler" else if v == "garbage" then "err:parse" else
     if v != "ed" && v != "edalg" && v != "edx5" && v != "p256" && v != "rsa" && v != "edchain" then "bad-request" else
